@@ -9,10 +9,10 @@ export GOFLAGS=-mod=mod GOPROXY=off
 git -C /repo worktree add -q --detach $wt HEAD || exit 2
 cd $wt
 cp $src/demo/zz_seed_test.go $pkg/zz_seed_test.go
-echo "--- without the change:"; go test -vet=off -count=1 -run "$rx" $pkg 2>&1 | tail -2
+echo "--- without the change:"; go test $TAGS -vet=off -count=1 -run "$rx" $pkg 2>&1 | tail -2
 git apply $src/patch.diff || { echo "patch does not apply"; }
 echo "--- build:"; go build ./... 2>&1 | tail -2
-echo "--- with the change:"; go test -vet=off -count=1 -run "$rx" $pkg 2>&1 | grep -v "^\s*$" | tail -4
+echo "--- with the change:"; go test $TAGS -vet=off -count=1 -run "$rx" $pkg 2>&1 | grep -v "^\s*$" | tail -4
 rm -f $pkg/zz_seed_test.go
 if [ "$full" = full ]; then
   echo "--- whole suite with the change:"; go test -json -vet=off -count=1 -timeout 25m ./... > /tmp/confirm-$tag.json 2>/dev/null; python3 /verif/tools/baseline_cmp.py /tmp/confirm-$tag.json | tail -8
